@@ -20,6 +20,28 @@ type fmtObs struct {
 	err error
 }
 
+// fmtPropertyFails checks C09's clauses for one (source, formatted) pair of a source the parser accepts:
+// "" when they hold, else which one fails.
+func fmtPropertyFails(src, out string) string {
+	p1 := guard(5*time.Second, func() bcl.ParseResult { return bcl.ParseFile(src, true) })
+	if p1.Panic != nil || p1.Timeout || p1.Val.ErrKind != "" || p1.Val.TreeNil {
+		return "" // not a source the parser accepts
+	}
+	p2 := guard(5*time.Second, func() bcl.ParseResult { return bcl.ParseFile(out, true) })
+	if p2.Panic != nil || p2.Timeout || p2.Val.ErrKind != "" || p2.Val.TreeNil {
+		return "rejected by the parser"
+	}
+	d1, ok1 := docOf(src)
+	d2, ok2 := docOf(out)
+	if !ok1 || !ok2 || strings.Join(d1, "\n") != strings.Join(d2, "\n") {
+		return "denotes a different document"
+	}
+	if again, err := bcl.FmtPublic(out); err != nil || again != out {
+		return "formatting twice changes the text"
+	}
+	return ""
+}
+
 func runC09(cfg *vh.Config) error {
 	res := vh.NewResult("C09", cfg.Seed)
 	res.Rule = "inputs: formatter templates (escapable and non-ASCII string contents, regexes with slashes, nested arrays, inline/block comments, multi-line descriptions, blank-line and indentation patterns), the repository's .j5s/.bcl/fixture files, grammar-generated files (1/5 mutated), windows of repository files, random <=3-token sequences; plus the write path (j5 j5s fmt --file/--dir --write on temporary files that are longer, shorter and equal to the formatted text); plus direct ties of tokenSource and reformatDescription on random literals; non-trivial = distinct input the parser accepts with at least one statement"
@@ -113,11 +135,19 @@ func runC09(cfg *vh.Config) error {
 			if len(wcases) >= budget {
 				break
 			}
-			if o, err := bcl.Fmt(in.src); err == nil {
+			// the command formats with internal/bcl.Fmt (a wrapper of parser.Fmt): that is what must end up in the file
+			if o, err := bcl.FmtPublic(in.src); err == nil {
 				wcases = append(wcases, wcase{in.src, o, in.stream})
+				if po, perr := bcl.Fmt(in.src); perr != nil || po != o {
+					// the wrapper changes the text: the property must hold for what it returns
+					res.Count("wrapper_differs")
+					if why := fmtPropertyFails(in.src, o); why != "" {
+						res.Fail(vh.Failure{Case: caseNo, Stream: "write", Sig: "C09 bcl.Fmt (the command's formatter) output: " + why, Clause: "the formatter's output is accepted by the parser and denotes the same document; formatting twice changes nothing", Input: fmt.Sprintf("%q", in.src), Got: fmt.Sprintf("%q", o)})
+					}
+				}
 				// the same file with trailing blank lines and spaces: the formatted text is shorter than the file
 				padded := in.src + "\n\n   \n\t\n\n"
-				if o2, err := bcl.Fmt(padded); err == nil && len(wcases) < budget {
+				if o2, err := bcl.FmtPublic(padded); err == nil && len(wcases) < budget {
 					wcases = append(wcases, wcase{padded, o2, in.stream})
 				}
 			}
